@@ -606,6 +606,78 @@ Proof.
   rewrite E in H. injection H as <-. exact Hr.
 Qed.
 
+(* ---------- both endpoints of the range are reached ---------- *)
+(* a multiple of 2^t below x stays below the rounded x when the rounding grid of
+   x is not coarser than 2^t *)
+Lemma rne53_ge_grid x m t : 0 < x -> bitlen x - 53 <= t -> m * 2 ^ t <= x -> m * 2 ^ t <= rne53 x.
+Proof.
+  intros Hx Hs Hm. destruct (Z_le_gt_dec (bitlen x - 53) 0) as [Hs0|Hs0].
+  { rewrite rne53_small by lia. exact Hm. }
+  rewrite rne53_unfold by lia. cbv zeta. set (s := bitlen x - 53) in *.
+  assert (Hp : 0 < 2 ^ s) by (apply Z.pow_pos_nonneg; lia).
+  assert (Et : 2 ^ t = 2 ^ (t - s) * 2 ^ s).
+  { rewrite <- Z.pow_add_r by lia. f_equal. lia. }
+  assert (Hq : m * 2 ^ (t - s) <= x / 2 ^ s).
+  { apply Z.div_le_lower_bound; [exact Hp|]. rewrite Et in Hm. lia. }
+  set (q := x / 2 ^ s) in *. rewrite Et.
+  destruct (_ || _); nia.
+Qed.
+
+Lemma bitlen_lt_pow2 x n : 0 < x -> 0 <= n -> x < 2 ^ n -> bitlen x <= n.
+Proof.
+  intros Hx Hn Hlt. pose proof (bitlen_pos_spec x Hx) as [Hlo _].
+  assert (H : bitlen x - 1 < n); [|lia].
+  apply (Z.pow_lt_mono_r_iff 2); [lia|lia|]. lia.
+Qed.
+
+Theorem next_int_b64_endpoints lo hi :
+  lo <= hi -> hi - lo + 1 < two53 ->
+  next_int_b64 lo hi 0 = OInt lo /\ next_int_b64 lo hi (two53 - 1) = OInt hi.
+Proof.
+  intros Hl Hw. unfold next_int_b64. set (w := hi - lo + 1) in *.
+  assert (Hw1 : 1 <= w < two53) by (unfold w; lia).
+  assert (Ef : rne53s w = w).
+  { unfold rne53s. assert (E : w <? 0 = false) by (apply Z.ltb_ge; lia). rewrite E.
+    apply rne53_small, bitlen_le_53. lia. }
+  rewrite Ef.
+  assert (El : float_limit <=? Z.abs w = false).
+  { apply Z.leb_gt. pose proof two53_lt_float_limit. lia. }
+  rewrite El. split.
+  - rewrite Z.mul_0_r. cbn. f_equal. lia.
+  - set (x := w * (two53 - 1)).
+    assert (Hxpos : 0 < x) by (unfold x, two53 in *; nia).
+    assert (Ep : rne53s x = rne53 x).
+    { unfold rne53s. assert (E : x <? 0 = false) by (apply Z.ltb_ge; lia). rewrite E. reflexivity. }
+    rewrite Ep.
+    pose proof (rne53_mul_lt w (two53 - 1) Hw1 ltac:(unfold two53; lia)) as Hup. fold x in Hup.
+    assert (Hb : bitlen x <= 106).
+    { apply bitlen_lt_pow2; [exact Hxpos|lia|]. change (2 ^ 106) with (two53 * two53). unfold x. nia. }
+    pose proof (rne53_ge_grid x (w - 1) 53 Hxpos ltac:(lia)) as Hlow.
+    change (2 ^ 53) with two53 in Hlow.
+    assert (Hle : (w - 1) * two53 <= x) by (unfold x; nia).
+    specialize (Hlow Hle).
+    assert (Ed : rne53 x / two53 = w - 1).
+    { symmetry. apply (Z.div_unique _ _ _ (rne53 x - (w - 1) * two53)); [left; unfold two53 in *; lia|lia]. }
+    rewrite Ed. f_equal. unfold w. lia.
+Qed.
+
+(* the repaired next_int reaches lo for u = 0 and, for ranges of up to 2^53
+   values, hi for u = 1 - 2^-53 *)
+Theorem next_int_fixed_endpoints lo hi :
+  lo <= hi ->
+  next_int_fixed lo hi 0 = OInt lo /\
+  (hi - lo + 1 <= two53 -> next_int_fixed lo hi (two53 - 1) = OInt hi).
+Proof.
+  intros Hl. unfold next_int_fixed. destruct (hi - lo + 1 <? two53) eqn:E.
+  - apply Z.ltb_lt in E. destruct (next_int_b64_endpoints lo hi Hl E) as [H0 H1]. split; [exact H0|intros _; exact H1].
+  - apply Z.ltb_ge in E. unfold next_int_exact. split.
+    + rewrite Z.mul_0_r. cbn. f_equal. lia.
+    + intros Hle. assert (Ew : hi - lo + 1 = two53) by lia. rewrite Ew.
+      replace (two53 * (two53 - 1) / two53) with (two53 - 1).
+      * f_equal. lia.
+      * symmetry. rewrite Z.mul_comm. apply Z.div_mul. discriminate.
+Qed.
+
 (* ---------- what the code computes differs from the exact formula ---------- *)
 Lemma next_int_float_rounding_visible :
   exists lo hi k, 0 <= k < two53 /\
